@@ -16,7 +16,7 @@ RULE = ("Hypothesis byte-backed generator: tables of 2-7 commands in 1-3 groups 
         "length of a list line or TEST text (or random): the command list, every AT<cmd>=? and one unsolicited TEST event are compared byte-for-byte "
         "with the Formatter (ERROR instead of a truncated line). Run B: generous capacity: the list is compared again and every request form of every "
         "command reachable by its full name is submitted with benign arguments: advertised forms must engage the command, non-advertised RUN/READ/WRITE "
-        "forms must be refused with ERROR and no callback. Non-trivial = a command with >=1 variable together with one of {only_test, disabled command, "
+        "forms must be refused with ERROR and no callback. Run C: a three-part '=?' answer (test handler returns DATA_NEXT twice) while an unsolicited TEST of another described command is triggered at a generated step: both texts, with their descriptions, must be complete. Non-trivial = a command with >=1 variable together with one of {only_test, disabled command, "
         "disabled group, missing handler}, or a capacity within 2 of a text length; distinct by case hash.")
 ASSUMPTIONS = ["implicit-write commands that own variables are not generated (excepted by the statement)",
                "commands shadowed by a duplicate name or by an implicit-write prefix are skipped in the dispatcher sub-check (counted)",
@@ -96,7 +96,7 @@ def gen(d, tier):
         cc = d.pick([8, 12, 16, 24, 32, 48, 64, 100, 200])
     ev_cmd = d.below(len(cmds))
     crlf = d.below(2)
-    return dict(groups=groups, cc=cc, shared=d.below(2), ev_cmd=ev_cmd, crlf=crlf, ucc=max(0, d.pick(lens) + d.pick([0, 1, -1, 2, 30])), odd=d.below(2))
+    return dict(groups=groups, cc=cc, shared=d.below(2), ev_cmd=ev_cmd, crlf=crlf, ucc=max(0, d.pick(lens) + d.pick([0, 1, -1, 2, 30])), odd=d.below(2), ev_step=d.pick([0, 5, 12, 20, 28, 36, 45, 60, 80]))
 
 
 def spec_a(case):
@@ -130,6 +130,27 @@ def spec_b(case):
     gs = case["groups"]
     inp = b"AT+LST\n" + b"".join(ln + b"\n" for _, _, ln in probes(case))
     return S.mk_spec(groups=S.clone(gs), input=inp, shared=False, bufsz=400, ubufsz=8)
+
+
+def spec_c(case):
+    """run C: a '=?' request answered in several parts (test handler returns DATA_NEXT) while an unsolicited TEST of another,
+    described command is triggered at a generated step: each state machine's text must still be complete"""
+    cs = [c for g in case["groups"] for c in g["cmds"]]
+    ev = [i for i, c in enumerate(cs) if c["desc"] is not None and c["name"] != b"+LST"]
+    ln = [i for i, c in enumerate(cs) if "t" in c["h"] and c["name"] != b"+LST" and not c["implicit"]]
+    if not ev or not ln:
+        return None
+    e, l = ev[case["ev_cmd"] % len(ev)], ln[case["ev_cmd"] % len(ln)]
+    gs = S.clone(case["groups"])
+    cs2 = [c for g in gs for c in g["cmds"]]
+    cs2[l]["scripts"]["0t"] = [S.mk_step(S.DATA_NEXT), S.mk_step(S.DATA_NEXT), S.mk_step(S.DATA_OK)]
+    for g in gs:
+        g["disable"] = 0
+    cs2[l]["disable"] = 0
+    nl = b"\r\n" if case["crlf"] else b"\n"
+    s = S.mk_spec(groups=gs, input=b"AT" + cs2[l]["name"] + b"=?" + nl, shared=False, bufsz=600, ubufsz=600,
+                  actions=[[S.AT_STEP, case.get("ev_step", 0), S.WA_TRIG, e, 1, None]])
+    return s, e, l
 
 
 def compare_lines(s, t, label, upto=None):
@@ -237,6 +258,48 @@ def run(case, W):
         labels.add("probe-advertised" if adv else "probe-refused")
     if skipped:
         labels.add("probes-skipped-shadowed")
+    # ---- run C: texts stay complete when both state machines format '=?' answers at the same time
+    runs = 2
+    sc = spec_c(case)
+    if sc is not None:
+        import re
+        s3, e, l = sc
+        t3 = W.run(s3, "plain")
+        runs = 3
+        if not t3.ok:
+            return Result(violation=("crash", str(t3.crash)), runs=3)
+        if t3.reason != "quiescent":
+            return Result(violation=("no-quiescence", t3.reason), runs=3)
+        trig = [a for a in t3.apis if a.name == "trig"]
+        m3 = ref.Model(s3)
+        NL = b"(?:\r\n|\n)"
+        expect = {}
+        ce, cl = m3.cs[e], m3.cs[l]
+        fe = ref.test_text(dict(ce, desc=None), b"\n")
+        fl = ref.test_text(dict(cl, desc=None), b"\n")
+        if trig and trig[0].result == 0 and fe is not None and "t" not in ce["h"]:
+            # (with a test handler of its own the event's emission depends on that handler's script)
+            k = (fe, ce["desc"])
+            expect[k] = expect.get(k, 0) + 1
+        elif trig and trig[0].result == 0 and "t" in ce["h"]:
+            expect = None
+        try:
+            reaches = ref.Model(s3).line(ref.split_lines(s3["input"])[0][0]).target == l      # (duplicates / implicit prefixes may shadow it)
+        except ref.Unknown:
+            reaches = False
+        if not reaches:
+            expect = None
+        if expect is not None and cl["desc"] is not None and fl is not None:
+            k = (fl, cl["desc"])
+            expect[k] = expect.get(k, 0) + 3
+        for (first, desc), cnt in (expect or {}).items():
+            pat = NL + re.escape(first) + NL + re.escape(desc) + NL
+            got = len(re.findall(pat, t3.out))
+            if got != cnt:
+                return Result(violation=("concurrent-test-text", "three-part '=?' answer of %r with an unsolicited TEST of %r triggered at step %d: the unit %r + description %r must appear %d times, appears %d times; output %r" % (
+                    cl["name"], ce["name"], case.get("ev_step", 0), first, desc, cnt, got, t3.out)), runs=3)
+        if expect:
+            labels.add("concurrent-test-texts")
     nt = near
     for i, c in enumerate(mb.cs):
         if c["vars"] and (c["only_test"] or dis[i] or len(c["h"]) < 4):
@@ -247,7 +310,7 @@ def run(case, W):
         labels.add("disabled-command")
     if any(c["only_test"] for c in mb.cs):
         labels.add("only-test")
-    return Result(labels=sorted(labels), nontrivial=nt, runs=2)
+    return Result(labels=sorted(labels), nontrivial=nt, runs=runs)
 
 
 def minimise(case, W, sig):
